@@ -35,6 +35,11 @@ PROGRAMS = [
     "RANDOMIZE 5\nPRINT RND; RND(1)\nPRINT TIMER\nINPUT \"v\"; v%\nk$ = INKEY$\nPRINT v% * 2; k$\n",
     # 7: ON ERROR, RESUME NEXT, GOSUB
     "ON ERROR GOTO h\nz% = 0\nPRINT 10 \\ z%\nPRINT \"after\"\nEND\nh: PRINT \"err\"; ERR\nRESUME NEXT\n",
+    # 8 and 9: the same TYPE name with different layouts, variables placed after a record
+    "TYPE rec\n  a AS INTEGER\nEND TYPE\nDIM r AS rec\nDIM z AS INTEGER\nr.a = 1: z = 2\nPRINT r.a; z\n",
+    "TYPE rec\n  a AS INTEGER\n  b AS LONG\n  c AS STRING\nEND TYPE\nDIM r AS rec\nDIM z AS INTEGER\nDIM q(2) AS rec\nr.a = 1: r.b = 2: r.c = \"x\": z = 3: q(1).b = 4\nPRINT r.a; r.b; r.c; z; q(1).b\n",
+    # 10: several STATIC variables in several procedures (order of the global area)
+    "DECLARE SUB tick ()\nDECLARE FUNCTION nxt% ()\ntick: tick: PRINT nxt%; nxt%\nSUB tick\n  STATIC n1%, n2&, n3$, n4!\n  n1% = n1% + 1: n2& = n2& + 2: n3$ = n3$ + \"x\": n4! = n4! + .5\n  PRINT n1%; n2&; n3$; n4!\nEND SUB\nFUNCTION nxt%\n  STATIC k1%, k2%\n  k1% = k1% + 1: k2% = k2% + 10\n  nxt% = k1% + k2%\nEND FUNCTION\n",
 ]
 SCRIPTS = [
     {'lines': ['x', '21'], 'keys': ['q'], 'rnd': [0.25, 0.5, 0.75], 'timer': [12345.5]},
@@ -122,7 +127,23 @@ def _run(ctx, work):
         rng.shuffle(pairs)
         # all singles, every ordered pair whose second request is a compile of another program (the
         # hazard: state left by an earlier request), sampled down to a budget, + the long ones
-        allh = [h for h in allh if len(h) == 1] + pairs[:110] + [h for h in allh if len(h) > 2]
+        # every ordered pair of DIFFERENT programs at least once (state left behind by an earlier
+        # compilation is the hazard), the option sets rotating, plus a random sample of the other pairs
+        first_req = {}
+        for idx, rq in enumerate(reqs):
+            first_req.setdefault(rq['p'], []).append(idx + 1)
+        core = []
+        k = 0
+        for pa in sorted(first_req):
+            for pb in sorted(first_req):
+                if pa != pb:
+                    ra = first_req[pa][k % len(first_req[pa])]
+                    rb = first_req[pb][(k // 2) % len(first_req[pb])]
+                    core.append([ra, rb])
+                    k += 1
+        coreset = {tuple(h) for h in core}
+        allh = [h for h in allh if len(h) == 1] + core + [h for h in pairs if tuple(h) not in coreset][:40] + \
+            [h for h in allh if len(h) > 2]
     other = os.path.join(work, 'elsewhere')
     os.makedirs(other, exist_ok=True)
     envs = [{'seed': 0}, {'seed': 1, 'cwd': other}, {'seed': 12345, 'fake_time': 2000000000},
